@@ -493,6 +493,32 @@ def run_objects(desc):
                 out.violation({'a': list(a), 'b': list(b), 'problem': 'REALPATH matchers compare equal but accept different paths'}, bucket=('req',))
         out.stats['realpath_matchers_where_follow_matters'] += sum(
             1 for (p, fl) in rms if fl & G.L and (p, fl & ~G.L) in rms and rbeh[(p, fl)] != rbeh[(p, fl & ~G.L)])
+    # what translate() hands out belongs to the caller: emptying or extending the returned lists must not show in a later call with the
+    # same arguments (nor in a result handed out earlier to somebody else)
+    ntr = 0
+    for mod, fsets in ((F, FLAGSETS_FN), (G, FLAGSETS_GL)):
+        for p_ in PATS:
+            for fl_ in fsets:
+                for ex_ in (None, 'b*'):
+                    for conv in (lambda x: x, lambda x: x.encode() if isinstance(x, str) else x):
+                        kw_ = {} if ex_ is None else {'exclude': conv(ex_)}
+                        try:
+                            first = mod.translate(conv(p_), flags=fl_, **kw_)
+                        except Exception:
+                            continue
+                        keep = (list(first[0]), list(first[1]))
+                        other = mod.translate(conv(p_), flags=fl_, **kw_)
+                        first[0].append(conv('junk'))
+                        first[1].clear()
+                        first[0].reverse()
+                        later = mod.translate(conv(p_), flags=fl_, **kw_)
+                        out.evaluations += 1
+                        ntr += 1
+                        if (list(later[0]), list(later[1])) != keep or (list(other[0]), list(other[1])) != keep:
+                            out.violation({'call': '%s.translate' % mod.__name__, 'pattern': repr(conv(p_)), 'flags': fl_, 'exclude': ex_,
+                                           'problem': 'changing the lists returned by translate() changes what another call with the same arguments returns'},
+                                          bucket=('translate-owned',))
+    out.nontrivial(('translate-owned', ntr))
     out.sample({'kind': 'objects', 'matchers': len(ms), 'pairs': len(keys) * (len(keys) - 1) // 2, 'realpath_matchers': len(rms)})
     return out
 
